@@ -35,6 +35,7 @@ import (
 
 	"Havoc/pkg/agent"
 	"Havoc/pkg/common/parser"
+	"Havoc/pkg/handlers"
 	"Havoc/pkg/packager"
 
 	"verifharness/internal/core"
@@ -42,15 +43,19 @@ import (
 )
 
 type StepC struct {
-	K    string `json:"k"`               // connect | leave | ask | release | bcast
+	K    string `json:"k"`               // connect | leave | ask | release | bcast | req
 	Src  string `json:"src,omitempty"`   // connect: fresh | reuse | other-ip
 	SrcN int    `json:"src_n,omitempty"` // connect: which earlier connection's address (index into the candidates, modulo)
 	IP   int    `json:"ip,omitempty"`    // connect/other-ip: 127.0.0.(2+IP%6)
 	Auth string `json:"auth,omitempty"`  // connect: silent | wrong-password | login
 	User int    `json:"user,omitempty"`  // connect: index into Users (modulo)
 	C    int    `json:"c,omitempty"`     // leave: index into the live connections; ask: into the live operators (modulo)
-	How  string `json:"how,omitempty"`   // leave: abort | close-frame | half-close; ask: svc-build | bof; release: payload | message | ran-ok | could-not-run
-	P    int    `json:"p,omitempty"`     // release: index into the open deferred answers (modulo)
+	How  string `json:"how,omitempty"`   // leave: abort | close-frame | half-close; ask: svc-build | bof; release: payload | message | ran-ok | could-not-run; req: ladd-dup-smb | ladd-dup-ext | ladd-proxy | ledit-proxy
+	P    int    `json:"p,omitempty"`     // release: index into the open deferred answers (modulo); req/*-proxy: which proxy field is missing
+	// ask / req: what the request's Head.User claims (the teamserver never checks it after the
+	// login): "" or own | empty | other-online | offline | unknown | own-case
+	Claim  string `json:"claim,omitempty"`
+	ClaimN int    `json:"claim_n,omitempty"`
 }
 
 type CaseC struct {
@@ -85,6 +90,8 @@ type mpend struct {
 	owner *mconn
 	open  bool
 	nrel  int
+	claim   string // effective claim class
+	claimed *mconn // the live session of the claimed operator (nil: nobody by that name is connected)
 }
 
 type modelC struct {
@@ -211,6 +218,52 @@ func (m *modelC) leave(s StepC) *mconn {
 	return c
 }
 
+// claimOf resolves the Head.User claim of a request sent by the session a: the effective
+// class, the string that is put on the wire, and the live session of the operator so named.
+func (m *modelC) claimOf(a *mconn, s StepC) (class, name string, claimed *mconn) {
+	class = s.Claim
+	switch class {
+	case "empty":
+		return "empty", "", nil
+	case "other-online":
+		var others []*mconn
+		for _, o := range m.liveOps() {
+			if o != a {
+				others = append(others, o)
+			}
+		}
+		if len(others) > 0 {
+			o := others[mod(s.ClaimN, len(others))]
+			return class, o.user, o
+		}
+		class = "offline"
+		fallthrough
+	case "offline":
+		var off []string
+		for _, u := range m.users {
+			if !m.online(u.Name) {
+				off = append(off, u.Name)
+			}
+		}
+		if len(off) > 0 {
+			return "offline", off[mod(s.ClaimN, len(off))], nil
+		}
+		return "unknown", "mallory", nil
+	case "unknown":
+		return class, "mallory", nil
+	case "own-case":
+		v := strings.ToUpper(a.user)
+		if v == a.user {
+			v = strings.ToLower(a.user)
+		}
+		if v != a.user {
+			return class, v, nil
+		}
+		return "unknown", "mallory", nil
+	}
+	return "own", a.user, a
+}
+
 func (m *modelC) ask(s StepC) *mpend {
 	l := m.liveOps()
 	if len(l) == 0 {
@@ -221,8 +274,36 @@ func (m *modelC) ask(s StepC) *mpend {
 		kind = "bof"
 	}
 	p := &mpend{id: len(m.pend), kind: kind, owner: l[mod(s.C, len(l))], open: true}
+	p.claim, _, p.claimed = m.claimOf(p.owner, s)
 	m.pend = append(m.pend, p)
 	return p
+}
+
+var proxyFields = []string{"Proxy Type", "Proxy Host", "Proxy Port", "Proxy Username", "Proxy Password"}
+
+// req: a request that HEAD answers at once with a reply directed to ONE client.
+func (m *modelC) req(s StepC) (a *mconn, kind string) {
+	l := m.liveOps()
+	if len(l) == 0 {
+		return nil, ""
+	}
+	kind = s.How
+	switch kind {
+	case "ladd-dup-ext", "ladd-proxy", "ledit-proxy":
+	default:
+		kind = "ladd-dup-smb"
+	}
+	return l[mod(s.C, len(l))], kind
+}
+
+func (m *modelC) unauthLive() int {
+	n := 0
+	for _, x := range m.liveConns() {
+		if x.auth == "silent" {
+			n++
+		}
+	}
+	return n
 }
 
 // release returns the answer that is released and its form.
@@ -302,6 +383,25 @@ func genC(t *rapid.T) CaseC {
 	srcOf := func(label string, weights []string) StepC {
 		return StepC{Src: rapid.SampledFrom(weights).Draw(t, label+"-src"), SrcN: rapid.IntRange(0, 5).Draw(t, label+"-srcn"), IP: rapid.IntRange(0, 5).Draw(t, label+"-ip")}
 	}
+	claims := []string{"own", "own", "own", "own", "empty", "empty", "empty", "other-online", "offline", "unknown", "own-case"}
+	claim := func(label string, s *StepC) {
+		s.Claim = rapid.SampledFrom(claims).Draw(t, label+"-claim")
+		s.ClaimN = rapid.IntRange(0, 2).Draw(t, label+"-claimn")
+	}
+	reqKinds := []string{"ladd-dup-smb", "ladd-dup-smb", "ladd-dup-ext", "ladd-proxy", "ladd-proxy", "ledit-proxy"}
+	// reqsMaybe: 0-2 requests that are answered at once by a reply directed to one client
+	reqsMaybe := func(label string) {
+		n := rapid.SampledFrom([]int{0, 0, 1, 1, 2}).Draw(t, label+"-nreq")
+		for i := 0; i < n; i++ {
+			l := m.liveOps()
+			if len(l) == 0 {
+				return
+			}
+			s := StepC{K: "req", C: rapid.IntRange(0, len(l)-1).Draw(t, label+"-reqc"), How: rapid.SampledFrom(reqKinds).Draw(t, label+"-reqk"), P: rapid.IntRange(0, 4).Draw(t, label+"-reqp")}
+			claim(label+"-req", &s)
+			add(s)
+		}
+	}
 	bcastMaybe := func(label string) {
 		if rapid.IntRange(0, 3).Draw(t, label+"-bcast?") == 0 {
 			add(StepC{K: "bcast"})
@@ -313,7 +413,7 @@ func genC(t *rapid.T) CaseC {
 		c.Shape = "random"
 		n := rapid.IntRange(3, 14).Draw(t, "nsteps")
 		for i := 0; i < n; i++ {
-			k := rapid.SampledFrom([]string{"connect", "connect", "connect", "leave", "leave", "ask", "ask", "release", "release", "bcast"}).Draw(t, "k")
+			k := rapid.SampledFrom([]string{"connect", "connect", "connect", "leave", "leave", "ask", "ask", "release", "release", "bcast", "req", "req"}).Draw(t, "k")
 			s := StepC{K: k}
 			switch k {
 			case "connect":
@@ -327,6 +427,12 @@ func genC(t *rapid.T) CaseC {
 			case "ask":
 				s.C = rapid.IntRange(0, 2).Draw(t, "c")
 				s.How = rapid.SampledFrom([]string{"svc-build", "bof"}).Draw(t, "kind")
+				claim("ask", &s)
+			case "req":
+				s.C = rapid.IntRange(0, 2).Draw(t, "c")
+				s.How = rapid.SampledFrom(reqKinds).Draw(t, "reqk")
+				s.P = rapid.IntRange(0, 4).Draw(t, "reqp")
+				claim("req", &s)
 			case "release":
 				s.P = rapid.IntRange(0, 3).Draw(t, "p")
 				s.How = rapid.SampledFrom([]string{"payload", "message", "ran-ok", "could-not-run"}).Draw(t, "form")
@@ -347,7 +453,7 @@ func genC(t *rapid.T) CaseC {
 		add(s)
 		ops = append(ops, m.connect(s))
 	}
-	if rapid.IntRange(0, 2).Draw(t, "early-bystander?") == 0 {
+	if rapid.IntRange(0, 1).Draw(t, "early-bystander?") == 0 {
 		// a connection that is there, unauthenticated, during the whole history
 		s := srcOf("by", []string{"fresh", "other-ip"})
 		s.K, s.Auth, s.User = "connect", "silent", nu-1
@@ -370,6 +476,7 @@ func genC(t *rapid.T) CaseC {
 			}
 		}
 		s := StepC{K: "ask", C: ci, How: rapid.SampledFrom([]string{"svc-build", "svc-build", "bof"}).Draw(t, "kind")}
+		claim("ask", &s)
 		add(s)
 		pl := &plan{p: m.ask(s)}
 		last := rapid.SampledFrom([]int{0, 1, 2, 2, 2}).Draw(t, "release-point")
@@ -402,6 +509,7 @@ func genC(t *rapid.T) CaseC {
 			}
 		}
 	}
+	reqsMaybe("early")
 	releasePhase(0)
 	// the askers whose answers come later leave; others may
 	for _, o := range ops {
@@ -430,11 +538,13 @@ func genC(t *rapid.T) CaseC {
 		m.connect(s)
 		bcastMaybe("new")
 	}
+	reqsMaybe("late")
 	releasePhase(2)
 	if rapid.IntRange(0, 2).Draw(t, "tail?") == 0 {
 		// and the history goes on: a newcomer asks for something itself
 		if l := m.liveOps(); len(l) > 0 {
 			s := StepC{K: "ask", C: rapid.IntRange(0, len(l)-1).Draw(t, "tail-asker"), How: rapid.SampledFrom([]string{"svc-build", "bof"}).Draw(t, "tail-kind")}
+			claim("tail", &s)
 			add(s)
 			p := m.ask(s)
 			r := StepC{K: "release", P: idxPend(p), How: rapid.SampledFrom([]string{"payload", "message", "ran-ok"}).Draw(t, "tail-form")}
@@ -496,7 +606,17 @@ func projC(fr wsx.Frame) string {
 	return wsx.Proj(pk)
 }
 
-func targeted(p string) bool { return strings.HasPrefix(p, "gate/") || strings.HasPrefix(p, "bofcb/") }
+func targeted(p string) bool {
+	return strings.HasPrefix(p, "gate/") || strings.HasPrefix(p, "bofcb/") || strings.HasPrefix(p, "lerr/")
+}
+
+// addressee: who may receive a directed reply.  asker: the session that sent the request;
+// claimed: the live session of the operator the request's Head.User named (HEAD resolves
+// the recipient by that name; C06 does not judge a reply that reaches an AUTHENTICATED
+// operator because the sender claimed its name).
+type addressee struct {
+	asker, claimed *rconn
+}
 
 type worldC struct {
 	fx     *wsx.Fixture
@@ -504,7 +624,8 @@ type worldC struct {
 	m      *modelC
 	conns  map[int]*rconn
 	pend   map[int]*rpend
-	owner  map[string]*rconn // targeted token -> the session it is addressed to
+	owner  map[string]addressee // directed-reply token -> who may receive it
+	nreq   int
 	svc    *wsx.Client
 	bof    *agent.Agent
 	tok    int
@@ -583,6 +704,11 @@ func (w *worldC) describe(rc *rconn) string {
 
 // silentCheck: nothing at all has been written to a connection that has not spoken.
 func (w *worldC) silentCheck(phase, kind string, about string) *core.Violation {
+	return w.silentSig("leak|"+phase+"|to-unauthenticated|"+kind+"|src=", about)
+}
+
+// silentSig: sig ending in "src=" gets the source address class of the receiving connection appended.
+func (w *worldC) silentSig(sig string, about string) *core.Violation {
 	ids := make([]int, 0, len(w.conns))
 	for id := range w.conns {
 		ids = append(ids, id)
@@ -598,7 +724,10 @@ func (w *worldC) silentCheck(phase, kind string, about string) *core.Violation {
 			if fr, ok, _ := rc.cl.Next(wsx.Watchdog); ok {
 				what = projC(fr)
 			}
-			return core.V("leak|"+phase+"|to-unauthenticated|"+kind+"|src="+rc.m.src, "%s received %q (%d bytes) %s", w.describe(rc), what, n, about)
+			if strings.HasSuffix(sig, "src=") {
+				sig += rc.m.src
+			}
+			return core.V(sig, "%s received %q (%d bytes) %s", w.describe(rc), what, n, about)
 		}
 	}
 	return nil
@@ -624,14 +753,20 @@ func (w *worldC) evaluate(rc *rconn) *core.Violation {
 			}
 			continue
 		}
-		o := w.owner[f]
+		ad, ok := w.owner[f]
+		o := ad.asker
 		switch {
-		case o == nil:
+		case !ok:
 			return core.V("deferred|unknown-targeted-event|"+wsx.KindOf(f), "%s received %q, which no step of the history produced; frames: %v", w.describe(rc), f, clip(rc.frames))
-		case o != rc && o.m.user == rc.m.user:
+		case o == rc:
+			// the asker itself (its request claimed another name; HEAD does not answer it then)
+			wsx.Obs("directed-reply-reached-the-asker-despite-its-claim")
+		case ad.claimed == rc:
+			wsx.Obs("directed-reply-reached-the-authenticated-operator-whose-name-was-claimed") // not judged by C06
+		case o.m.user == rc.m.user:
 			wsx.Obs("answer-reached-a-later-session-of-the-same-operator") // the statement does not forbid it
 		default:
-			return core.V("deferred|delivered-to-other-session|"+wsx.KindOf(f)+"|src="+rc.m.src, "%s received the targeted answer %q, which was asked for by %s; frames: %v", w.describe(rc), f, w.describe(o), clip(rc.frames))
+			return core.V("deferred|delivered-to-other-session|"+wsx.KindOf(f)+"|src="+rc.m.src, "%s received the directed reply %q, which was asked for by %s; frames: %v", w.describe(rc), f, w.describe(o), clip(rc.frames))
 		}
 	}
 	for _, e := range rc.expect {
@@ -823,10 +958,12 @@ func (w *worldC) ask(s StepC) *core.Violation {
 	rp := &rpend{m: mp}
 	w.pend[mp.id] = rp
 	T := packager.Type
-	wsx.Obs("ask:" + mp.kind)
+	wsx.Obs("ask:" + mp.kind + "+claim:" + mp.claim)
+	// (the model already resolved the claim when it created mp: same state, same step)
+	_, claimName, _ := w.m.claimOf(mp.owner, s)
 	switch mp.kind {
 	case "svc-build":
-		pk := wsx.Pkg(T.Gate.Type, rc.m.user, T.Gate.Stageless, map[string]any{"AgentType": svcAgentName, "Listener": "none", "Arch": "x64", "Format": "Windows Exe", "Config": "{}"})
+		pk := wsx.Pkg(T.Gate.Type, claimName, T.Gate.Stageless, map[string]any{"AgentType": svcAgentName, "Listener": "none", "Arch": "x64", "Format": "Windows Exe", "Config": "{}"})
 		pk.Head.OneTime = "true" // as the payload dialog sends it
 		rc.cl.SendJSON(pk)
 		mm, v := w.svcRead("AgentBuild")
@@ -834,13 +971,13 @@ func (w *worldC) ask(s StepC) *core.Violation {
 			return v
 		}
 		rp.clientID, _ = mm["Body"]["ClientID"].(string)
-		if rp.clientID == "" {
+		if rp.clientID == "" && mp.claim == "own" {
 			return core.V("harness|build-request-without-client-id", "%v", mm)
 		}
 	default:
 		w.tok++
 		rp.reqID = 0x0B0F0000 + uint32(w.tok)
-		rc.cl.SendJSON(wsx.Pkg(T.Session.Type, rc.m.user, T.Session.Input, map[string]any{
+		rc.cl.SendJSON(wsx.Pkg(T.Session.Type, claimName, T.Session.Input, map[string]any{
 			"TaskID": fmt.Sprintf("%08X", rp.reqID), "CommandLine": "inline-execute /tmp/x.o", "DemonID": fmt.Sprintf("%08x", bofAgentID),
 			"CommandID": fmt.Sprint(agent.COMMAND_INLINEEXECUTE), "HasCallback": "true", "FunctionName": "go",
 			"Binary": base64.StdEncoding.EncodeToString([]byte("not-a-coff")), "Arguments": base64.StdEncoding.EncodeToString([]byte{0, 0, 0, 0}), "Flags": "default"}))
@@ -860,7 +997,7 @@ func (w *worldC) ask(s StepC) *core.Violation {
 			return core.V("harness|bof-callback-not-registered", "task %08X left no callback record", rp.reqID)
 		}
 	}
-	return w.silentCheck("request", mp.kind, "while "+w.describe(rc)+" asked for a "+mp.kind)
+	return w.silentCheck("request", mp.kind, fmt.Sprintf("while %s asked for a %s in a request whose Head.User is %q", w.describe(rc), mp.kind, claimName))
 }
 
 func (w *worldC) release(s StepC) *core.Violation {
@@ -871,6 +1008,7 @@ func (w *worldC) release(s StepC) *core.Violation {
 	rp := w.pend[mp.id]
 	rc := w.conns[mp.owner.id]
 	point, holder := w.m.releasePoint(mp)
+	must := mp.owner.live && mp.claim == "own" // the asker named itself and is still there: it must get the answer
 	obs := "release:" + mp.kind + "@" + point
 	if holder != nil {
 		obs += "+address-now-held-by:" + holder.auth
@@ -890,8 +1028,8 @@ func (w *worldC) release(s StepC) *core.Violation {
 			msg["Type"] = "Info"
 			msg["Message"] = strings.TrimPrefix(token, "gate/")
 		}
-		w.owner[token] = rc
-		if mp.owner.live {
+		w.owner[token] = w.addresseeOf(mp)
+		if must {
 			rc.addressed[token] = true
 		}
 		if err := w.svcSend(map[string]any{"Head": map[string]any{"Type": "Agent"}, "Body": map[string]any{"Type": "AgentBuild", "ClientID": rp.clientID, "Message": msg}}); err != nil {
@@ -907,8 +1045,8 @@ func (w *worldC) release(s StepC) *core.Violation {
 			worked, code = "false", uint32(agent.COMMAND_INLINEEXECUTE_COULD_NO_RUN)
 		}
 		token = fmt.Sprintf("bofcb/%08X/%s", rp.reqID, worked)
-		w.owner[token] = rc
-		if mp.owner.live {
+		w.owner[token] = w.addresseeOf(mp)
+		if must {
 			rc.addressed[token] = true
 		}
 		if v := core.WithWatchdog(wsx.Watchdog, "agent-callback:bof", func() *core.Violation {
@@ -920,12 +1058,112 @@ func (w *worldC) release(s StepC) *core.Violation {
 		}
 	}
 	rp.tokens = append(rp.tokens, token)
-	about := fmt.Sprintf("when the %s answer %q for %s was released (%s)", mp.kind, token, w.describe(rc), point)
+	about := fmt.Sprintf("when the %s answer %q for %s was released (%s; the request's Head.User claim: %s)", mp.kind, token, w.describe(rc), point, mp.claim)
 	if v := w.silentCheck("deferred-answer", mp.kind, about); v != nil {
 		return v
 	}
-	if mp.owner.live {
+	if must {
 		return w.collect(rc, token, "deferred|not-delivered-to-requester|"+mp.kind, w.describe(rc)+", which asked for it and is still connected")
+	}
+	return nil
+}
+
+func (w *worldC) addresseeOf(mp *mpend) addressee {
+	ad := addressee{asker: w.conns[mp.owner.id]}
+	if mp.claimed != nil {
+		ad.claimed = w.conns[mp.claimed.id]
+	}
+	return ad
+}
+
+// req: a request HEAD answers at once, from inside the sender's handler, with a reply
+// directed to one client: a Listener Add that must fail (duplicate name as SMB / External
+// listener; HTTP with the proxy enabled and a proxy field missing) or the same Edit.
+func (w *worldC) req(s StepC) *core.Violation {
+	am, kind := w.m.req(s)
+	if am == nil {
+		return nil
+	}
+	rc := w.conns[am.id]
+	class, claimName, claimed := w.m.claimOf(am, s)
+	ad := addressee{asker: rc}
+	if claimed != nil {
+		ad.claimed = w.conns[claimed.id]
+	}
+	w.nreq++
+	T := packager.Type
+	wsx.Obs("req:" + kind + "+claim:" + class)
+	var pk packager.Package
+	var tokens []string
+	switch kind {
+	case "ladd-dup-smb", "ladd-dup-ext":
+		// a listener of that name exists (started by the harness; its announcement is a broadcast)
+		name := fmt.Sprintf("dl-%d", w.nreq)
+		if v := core.WithWatchdog(wsx.Watchdog, "broadcast:listener-start", func() *core.Violation {
+			if err := w.fx.TS.ListenerStart(handlers.LISTENER_PIVOT_SMB, handlers.SMBConfig{Name: name, PipeName: "pipe-" + name}); err != nil {
+				return core.V("harness|listener-start", "%v", err)
+			}
+			return nil
+		}); v != nil {
+			return v
+		}
+		if v := w.silentCheck("broadcast", "listener-add", "when a listener start was announced"); v != nil {
+			return v
+		}
+		if kind == "ladd-dup-smb" {
+			pk = wsx.Pkg(T.Listener.Type, claimName, T.Listener.Add, map[string]any{"Name": name, "Protocol": handlers.AGENT_PIVOT_SMB, "PipeName": "other-pipe"})
+		} else {
+			pk = wsx.Pkg(T.Listener.Type, claimName, T.Listener.Add, map[string]any{"Name": name, "Protocol": handlers.AGENT_EXTERNAL, "Endpoint": "ep-" + name})
+		}
+		tokens = []string{"lerr/" + name + "/listener already exists"}
+	default:
+		name := fmt.Sprintf("px-%d", w.nreq)
+		info := map[string]any{"Name": name, "Protocol": handlers.AGENT_HTTP, "HostBind": "127.0.0.1", "Hosts": "127.0.0.1", "Headers": "", "Uris": "", "HostRotation": "round-robin",
+			"PortBind": "0", "PortConn": "0", "HostHeader": "", "UserAgent": "ua", "Secure": "false", "Proxy Enabled": "true",
+			"Proxy Type": "http", "Proxy Host": "127.0.0.1", "Proxy Port": "3128", "Proxy Username": "u", "Proxy Password": "p"}
+		miss := proxyFields[mod(s.P, len(proxyFields))]
+		delete(info, miss)
+		what := func(f string) string { return strings.ToLower(f) + " not specified" }
+		tokens = []string{"lerr/" + name + "/" + what(miss)}
+		if miss == "Proxy Type" || miss == "Proxy Host" {
+			// HEAD reports these two and goes on: the password is left out as well, which ends the request
+			delete(info, "Proxy Password")
+			tokens = append(tokens, "lerr/"+name+"/"+what("Proxy Password"))
+		}
+		sub := T.Listener.Add
+		if kind == "ledit-proxy" {
+			sub = T.Listener.Edit
+		}
+		pk = wsx.Pkg(T.Listener.Type, claimName, sub, info)
+	}
+	for _, tk := range tokens {
+		w.owner[tk] = ad
+		if class == "own" {
+			rc.addressed[tk] = true
+		}
+	}
+	rc.cl.SendJSON(pk)
+	// the reply is written by the sender's own handler before it reads the next message
+	w.nbar++
+	b := fmt.Sprintf("req-%d", w.nbar)
+	rc.cl.SendJSON(wsx.BarrierPkg(rc.m.user, b))
+	if v := w.collect(rc, "!chat/"+rc.m.user+"/"+b, "operator|no-barrier-echo", w.describe(rc)+" after a "+kind+" request"); v != nil {
+		return v
+	}
+	about := fmt.Sprintf("when %s sent a %s request whose Head.User is %q (%s)", w.describe(rc), kind, claimName, class)
+	if v := w.silentSig("leak|directed-reply|to-unauthenticated|listener-error|claim="+class, about); v != nil {
+		return v
+	}
+	if class == "own" {
+		have := map[string]bool{}
+		for _, f := range rc.frames {
+			have[f] = true
+		}
+		for _, tk := range tokens {
+			if !have[tk] {
+				return core.V("directed|not-delivered-to-requester|"+kind, "%s did not receive %q for its own %s request; frames: %v", w.describe(rc), tk, kind, clip(rc.frames))
+			}
+		}
 	}
 	return nil
 }
@@ -963,15 +1201,49 @@ func runC(raw json.RawMessage) *core.Violation {
 	if err != nil {
 		return core.V("harness|fixture", "%v", err)
 	}
-	w := &worldC{fx: fx, c: c, m: &modelC{users: c.Users}, conns: map[int]*rconn{}, pend: map[int]*rpend{}, owner: map[string]*rconn{}}
+	w := &worldC{fx: fx, c: c, m: &modelC{users: c.Users}, conns: map[int]*rconn{}, pend: map[int]*rpend{}, owner: map[string]addressee{}}
 	defer func() { fx.Release(w.dirty) }()
 	v := w.run()
 	if v != nil && !strings.HasPrefix(v.Sig, "harness|") {
-		// a verdict was reached in the middle of a history: whatever is still connected is
-		// torn down by Release; the teamserver is not reused
+		// a verdict was reached in the middle of a history.  If it is a delivery to the wrong
+		// connection the teamserver itself is in order: everybody is disconnected one after
+		// the other and it is reused; otherwise (or if that does not end cleanly) it is dropped
+		if !w.dirty && strings.HasPrefix(v.Sig, "leak|") && w.teardown() {
+			return v
+		}
 		w.dirty = true
 	}
 	return v
+}
+
+func (w *worldC) teardown() bool {
+	ids := make([]int, 0, len(w.conns))
+	for id := range w.conns {
+		ids = append(ids, id)
+	}
+	sort.Ints(ids)
+	for _, id := range ids {
+		rc := w.conns[id]
+		if !rc.m.live {
+			continue // (its address may be in use by a later connection)
+		}
+		rc.m.live = false
+		rc.cl.Abort()
+		deadline := time.Now().Add(3 * time.Second)
+		for {
+			if cid, _ := w.fx.ClientByAddr(rc.addr); cid == "" {
+				break
+			}
+			if time.Now().After(deadline) {
+				return false
+			}
+			time.Sleep(100 * time.Microsecond)
+		}
+	}
+	if w.svc != nil {
+		w.svc.Abort()
+	}
+	return w.fx.WaitHandlers(0, 3*time.Second)
 }
 
 func (w *worldC) run() *core.Violation {
@@ -1016,6 +1288,8 @@ func (w *worldC) run() *core.Violation {
 			v = w.release(s)
 		case "bcast":
 			v = w.bcast()
+		case "req":
+			v = w.req(s)
 		}
 		if v != nil {
 			return v
@@ -1077,26 +1351,61 @@ func classifyC(c CaseC) core.Class {
 		case "ask":
 			if p := m.ask(s); p != nil {
 				lab["ask:"+p.kind] = true
+				lab["claim:"+p.claim] = true
+				lab["ask:"+p.kind+"+claim:"+p.claim] = true
+				if p.claim != "own" {
+					cl.NonTrivial = true
+					if m.unauthLive() > 0 {
+						lab["claim:"+p.claim+"+while-unauthenticated-connected"] = true
+					}
+				}
+			}
+		case "req":
+			if a, kind := m.req(s); a != nil {
+				class, _, _ := m.claimOf(a, s)
+				lab["req:"+kind] = true
+				lab["claim:"+class] = true
+				lab["req:"+kind+"+claim:"+class] = true
+				f := "req:own"
+				if class == "empty" {
+					f = "req:empty"
+				} else if class != "own" {
+					f = "req:other-name"
+				}
+				if m.unauthLive() > 0 {
+					lab["directed-reply-while-unauthenticated-connected"] = true
+					lab["claim:"+class+"+while-unauthenticated-connected"] = true
+					f += "+unauth"
+					cl.NonTrivial = true
+				}
+				if class != "own" {
+					cl.NonTrivial = true
+				}
+				fp[f] = true
 			}
 		case "release":
 			if p, form := m.release(s); p != nil {
 				point, holder := m.releasePoint(p)
 				k := "deferred:" + p.kind + "/" + form + "@" + point
 				lab[k] = true
-				f := p.kind + "@" + point
-				unauth := 0
-				for _, x := range m.liveConns() {
-					if x.auth == "silent" {
-						unauth++
-					}
+				f := "@" + point
+				fp["kind:"+p.kind] = true
+				if p.claim == "empty" {
+					fp["deferred-claim:empty"] = true
+				} else if p.claim != "own" {
+					fp["deferred-claim:other-name"] = true
 				}
+				if p.claim != "own" {
+					lab["deferred@"+point+"+claim:"+p.claim] = true
+				}
+				unauth := m.unauthLive()
 				if unauth > 0 {
 					lab["deferred-while-unauthenticated-connected"] = true
-					f += "+unauth"
+					fp["deferred+unauth"] = true
 				}
 				if holder != nil {
 					lab["deferred@owner-address-now-held-by:"+holder.auth] = true
-					f += "+held:" + holder.auth
+					fp["held:"+holder.auth] = true
 				}
 				if p.nrel > 1 {
 					lab["deferred:several-answers-to-one-request"] = true
@@ -1126,11 +1435,12 @@ func classifyC(c CaseC) core.Class {
 func TestC06c(t *testing.T) {
 	core.Run(t, core.Spec[CaseC]{
 		Property: "C06", Sub: "c",
-		Rule: "real Teamserver.Start() served on a harness listener, 2-3 operators, a third-party service registered over the real service websocket with one agent type, one Demon session. A history of connections to /havoc/: every connection binds its local address explicitly (net.Dialer.LocalAddr; linger 0 so that a departed address is free at once): a fresh 127.0.0.1 port, the exact ip:port of an earlier departed connection (SO_REUSEADDR), or another loopback ip 127.0.0.2-7 with the port of an earlier connection; it stays silent, presents a wrong password, or logs in as an operator; connections leave (reset / close frame / half-close). Authenticated operators start work that is answered later by client id: a payload build relayed to the service (the service's AgentBuild replies - progress message / payload - are sent by the ClientID it was given) and a BOF task with python-module callback (the agent's RAN_OK / COULD_NOT_RUN callback goes through PythonModuleCallback(ClientID)); each answer is released at a generated later point: while the asker is still connected, after it left, after it left and other connections came (planned histories aim at these points; 1 in 10 histories is an unplanned step sequence), interleaved with live console broadcasts. Oracle: a connection that has not sent a message has received 0 bytes at every release, broadcast and at its departure; a refused one exactly one InitConnection/Error; an authenticated one receives a targeted answer iff it is the session that asked for it and is still connected (exactly once; a later session of the same operator may or may not), and every live broadcast issued while it was authenticated; frame lists are complete (one-shot chat echo read before judging; service-side barrier after every service reply). Non-trivial: an answer is released after its asker left, or while an unauthenticated connection exists; distinct = set of (kind, release point, unauthenticated present, who holds the asker's address now)",
+		Rule: "real Teamserver.Start() served on a harness listener, 2-3 operators, a third-party service registered over the real service websocket with one agent type, one Demon session. A history of connections to /havoc/: every connection binds its local address explicitly (net.Dialer.LocalAddr; linger 0 so that a departed address is free at once): a fresh 127.0.0.1 port, the exact ip:port of an earlier departed connection (SO_REUSEADDR), or another loopback ip 127.0.0.2-7 with the port of an earlier connection; it stays silent, presents a wrong password, or logs in as an operator; connections leave (reset / close frame / half-close). Authenticated operators start work that is answered later by client id: a payload build relayed to the service (the service's AgentBuild replies - progress message / payload - are sent by the ClientID it was given) and a BOF task with python-module callback (the agent's RAN_OK / COULD_NOT_RUN callback goes through PythonModuleCallback(ClientID)); each answer is released at a generated later point: while the asker is still connected, after it left, after it left and other connections came (planned histories aim at these points; 1 in 10 histories is an unplanned step sequence), interleaved with live console broadcasts. Claimed sender: every such request, and 0-2 requests per phase that HEAD answers at once with a reply directed to ONE client (Listener Add that must fail: existing name as Smb / External listener, Http with the proxy enabled and one of the five proxy fields missing; the same Listener Edit), carries a generated Head.User claim (never checked after login): the sender's own name, the empty string, the name of another connected operator, of a configured operator who is not connected, an unknown name, the own name in another letter case. Oracle: a connection that has not sent a message has received 0 bytes at every release, broadcast and at its departure; a refused one exactly one InitConnection/Error; an authenticated one receives a targeted answer iff it is the session that asked for it and is still connected (exactly once; a later session of the same operator may or may not), and every live broadcast issued while it was authenticated; whatever an authenticated operator sends and claims, an unauthenticated connection receives nothing; a directed reply must reach the sender when it named itself, may reach the sender or the AUTHENTICATED operator whose name was claimed otherwise (not judged by C06, counted: observed directed-reply-reached-...), and no third session; frame lists are complete (one-shot chat echo read before judging; service-side barrier after every service reply). Non-trivial: an answer is released after its asker left, or while an unauthenticated connection exists, or a request claims another sender than its own, or a directed reply is produced while an unauthenticated connection exists; distinct = (set of release points, set of kinds, unauthenticated present at a release, who holds an asker's address at a release, claim class (own / empty / other name) of deferred requests and of directed-reply requests, the latter with/without an unauthenticated connection present)",
 		Gen:   genC, Check: checkC, Classify: classifyC,
 		Assumptions: []string{
 			"one session per operator at a time: a generated login for an operator who is online stays a silent connection (the teamserver resolves the asking session by user name)",
 			"if the kernel refuses to bind/connect from a requested local address after 20 tries the connection is made from a fresh address and counted (observed: address-refused-by-kernel); that is never a violation",
+			"the Demon-type payload build (builder console messages) is not driven: every build attempt leaves a directory under the hard-coded /tmp and runs external compilers; the same ClientID resolution is exercised through the service-type build and the BOF callback",
 			"a targeted answer reaching a later session of the SAME operator is not judged (the statement only speaks about unauthenticated connections; HEAD never does it)",
 		},
 	})
